@@ -6,6 +6,8 @@ import TracklibVerif.Drv.Util
   dp <eps> <xs> <ys>            → kept indices `i,j,…` of the code's own run, then ` ` and every output
                                   reachable with another choice among equally far fixes (`;`-separated),
                                   or `err:recursion` when the recursion does not terminate
+  dpdepth <eps> <xs> <ys>       → depth of the recursion of `douglas_peucker` (`dpDepth`: nested calls below the outermost one), or
+                                  `err:recursion`
   vw <eps> <xs> <ys>            → kept indices
   vwall <eps> <xs> <ys> <cap>   → kept indices of the code's own run, then ` ` and every output reachable with another choice among
                                   equally small triangles (`visvalingamAll`, `;`-separated; `Model/SimplifyTie.lean`), or `toomany`
@@ -166,6 +168,14 @@ def handle (cmd : String) (args : List String) : String :=
       match douglasPeucker Float.sqrt eps L with
       | none => "err:recursion"
       | some out => showIdx out ++ " " ++ joinWith ";" ((dpAllFuel Float.sqrt eps L.length L).map showIdx)
+    | _, _, _ => "bad-request"
+  | "dpdepth", [e, xs, ys] =>
+    match float? e, floatList? xs, floatList? ys with
+    | some eps, some xs, some ys =>
+      if xs.length != ys.length then "bad-request" else
+      match dpDepth Float.sqrt eps (mkTrack xs ys) with
+      | none => "err:recursion"
+      | some d => toString d
     | _, _, _ => "bad-request"
   | "vw", [e, xs, ys] =>
     match float? e, floatList? xs, floatList? ys with
